@@ -26,7 +26,9 @@ PROPERTY = 'C13'
 LEVEL = 'exploration'
 LEVEL_TEXT = ('Exploration with an exhaustive sub-space: every request path made of <= 3 (quick) / 4 (thorough) tokens '
               'from {names inside and outside the root, "/", ".", "..", "%2e", "%2e%2e", "%2f", "%00", "//", "?"} '
-              'plus random paths up to 12 tokens, plus generated query strings made of path-like material (dot-segments, '
+              'plus random paths up to 12 tokens, plus structured climbs (from every depth of the tree, with the separator '
+              'noise the OS collapses - "//", "/./", "///" - in front of, between and after the ".." segments), plus files '
+              'around 64 KiB, 1 MiB and 2 MiB, plus generated query strings made of path-like material (dot-segments, '
               'the root\'s own name) appended to confined and escaping paths, each sent to the real web-server plugin; the response is compared '
               'with the file system and the audit hook watches every open() for decoy files.')
 LEVEL_NOTE = 'Trusted: posixpath.normpath as dot-segment resolver; unique file contents identify which file was served.'
